@@ -415,6 +415,17 @@ def run(ctx):
             gen_case(mk_extract(["501", "600"][: (m + n_) % 3], fc_pool[:n_], rc_pool[:m], ["12P"] if m == 1 else [], ["UB1"] if n_ == 1 else []))
             if m + n_ >= 1:
                 nontrivial += 1
+    # keys that occur as literals in ahbicht's source (a rule singling out particular keys would show here): pairs and triples of them
+    mined = strings.mined_keys()
+    mined_rc = [k for k in mined if doc_category(int(k)) == "rc"]
+    mined_fc = [k for k in mined if doc_category(int(k)) == "fc"]
+    ctx.notes["mined_keys"] = {"requirement": mined_rc[:40], "format": mined_fc[:40]}
+    for i in range(0, max(0, len(mined_rc) - 1)):
+        gen_case(mk_extract([], mined_fc[: (i % 3)], mined_rc[i:i + 2]))
+    for i in range(0, max(0, len(mined_rc) - 2), 2):
+        gen_case(mk_extract([], mined_fc[-1:], mined_rc[i:i + 3]))
+    for i in range(0, max(0, len(mined_fc) - 1)):
+        gen_case(mk_extract([], mined_fc[i:i + 2], mined_rc[: (i % 2) + 1]))
     # extracts of random expressions (sanitized: the keys are duplicate free)
     for s in rng.sample(exprs_valid, min(len(exprs_valid), 40 if ctx.quick else 300)):
         r = extract_categorized_keys_from_tree(parse_condition_expression_to_tree(s), sanitize=True)
